@@ -156,28 +156,14 @@ func firstBlock(offsets []uint64, rangeStart uint64) int {
 	// rangeStart/blockStart is the inclusive lower bound
 	// rangeEnd/blockEnd is the exclusive upper bound
 
-	hi := len(offsets) - 1
-	var lo int
-	i := ((hi + lo) / 2)
-	blockStart := offsets[i]
-	blockEnd := offsets[i+1]
-
-	// perform a binary search for the first block
-	// assumes that all of the blocks are contiguous, so rangeStart is guaranteed
-	// to either fall into the range of a block or be outside the block range entirely
-	for !(rangeStart >= blockStart && rangeStart < blockEnd) {
-		if lo == i {
-			// must be out of range, fail
-			return -1
-		}
-		if rangeStart > blockStart {
-			lo = i
-		} else {
-			hi = i
-		}
-		i = ((hi + lo) / 2)
-		blockStart = offsets[i]
-		blockEnd = offsets[i+1]
+	// Binary search for the first block that ends after
+	// rangeStart. Zero-length blocks (end == start) are never
+	// chosen, so they cannot derail the search.
+	n := len(offsets) - 1
+	i := sort.Search(n, func(i int) bool { return offsets[i+1] > rangeStart })
+	if i == n || offsets[i] > rangeStart {
+		// out of range, fail
+		return -1
 	}
 	return i
 }
